@@ -210,9 +210,21 @@ def main():
                 carriers.add(o["fn"])
         if reach is not None:
             carriers = reach
+        # modular proofs lean on the contracts of the callees: a contract clause of a helper that fails counts for every property whose functions (transitively) call it,
+        # whatever property its own label names (e.g. Change::next_version, labelled C02, is what C19's try_resolve_conflict_response stands on)
+        calls = {f["path"]: f.get("calls", []) for f in r["functions"]}
+        leaned_on, todo = set(), [c for c in carriers]
+        while todo:
+            x = todo.pop()
+            for y in calls.get(x, []):
+                if y not in leaned_on and y not in carriers:
+                    leaned_on.add(y); todo.append(y)
         for f in r["failures"]:
             lab = f["label"]
             mine = lab.startswith(prop + ".") and (prop != "C10" or f["fn"] in carriers or f.get("origin_kind") in ("spec", "raw"))
+            if not mine and prop != "C10" and lab != "proof-step" and f["fn"] in leaned_on and f.get("kind") in ("postcondition", "invariant", "assertion"):
+                mine = True
+                f = dict(f); f["message"] = "%s [contract of a callee that the %s obligations of this unit lean on]" % (f["message"], prop)
             if lab == "proof-step":
                 # an unlabelled contract clause / proof step / callee precondition failed somewhere in this unit: every
                 # property decided by the unit may lean on it (modular proofs use the helper's contract), so it counts for all
